@@ -95,8 +95,11 @@ theorem annot_ok (P : Powers) (exc : Nat → Nat → Bool)
               Bool.and_eq_false_iff] at hb
             exact ⟨by omega, by omega⟩
         | pre k2 x2 =>
-          simp only [Expr.head, nb, decide_eq_false_iff_not] at hb
-          simp only [Adm, Powers.pbp]; omega
+          simp only [Expr.head, nb] at hb
+          by_cases hs : P.stmt k2 = true
+          · simp [hs] at hb
+          · simp only [hs, Bool.false_eq_true, if_false, decide_eq_false_iff_not] at hb
+            simp only [Adm, Powers.pbp, hs, Bool.false_eq_true, if_false]; omega
     · -- right operand
       cases hb : nb P exc (.bin k) r.head 1 with
       | true => exact ok_wrap_true P _ _ _ (ihr 0 0 hnr (adm_zero P hpos r))
@@ -116,8 +119,11 @@ theorem annot_ok (P : Powers) (exc : Nat → Nat → Bool)
             · exact absurd (by omega : 1 > 0) h2
           exact ⟨by omega, by omega⟩
         | pre k2 x2 =>
-          simp only [Expr.head, nb, decide_eq_false_iff_not] at hb
-          simp only [Adm, Powers.pbp]; omega
+          simp only [Expr.head, nb] at hb
+          by_cases hs : P.stmt k2 = true
+          · simp [hs] at hb
+          · simp only [hs, Bool.false_eq_true, if_false, decide_eq_false_iff_not] at hb
+            simp only [Adm, Powers.pbp, hs, Bool.false_eq_true, if_false]; omega
   | pre k x ih =>
     intro m f hne hadm
     simp only [hasExc] at hne
@@ -132,13 +138,23 @@ theorem annot_ok (P : Powers) (exc : Nat → Nat → Bool)
       cases x with
       | atom n => trivial
       | bin k2 l2 r2 =>
-        simp only [Expr.head, nb, decide_eq_false_iff_not] at hb
-        simp only [Powers.pbp] at hadm
+        simp only [Expr.head, nb] at hb
         show P.pbp k < P.bp k2 ∧ f ≤ P.bp k2
-        simp only [Powers.pbp]; omega
+        have h2 := hpos k2
+        by_cases hs : P.stmt k = true
+        · simp only [Powers.pbp, hs, if_true] at hadm ⊢; omega
+        · simp only [hs, Bool.false_eq_true, if_false, decide_eq_false_iff_not] at hb
+          simp only [Powers.pbp, hs, Bool.false_eq_true, if_false] at hadm ⊢; omega
       | pre k2 x2 =>
-        simp only [Expr.head, nb, decide_eq_false_iff_not] at hb
-        simp only [Adm, Powers.pbp] at hadm ⊢; omega
+        simp only [Expr.head, nb] at hb
+        show f ≤ P.pbp k2
+        by_cases hs : P.stmt k = true
+        · simp only [Powers.pbp, hs, if_true] at hadm; omega
+        · simp only [hs, Bool.false_eq_true, if_false] at hb
+          by_cases hs2 : P.stmt k2 = true
+          · simp [hs2] at hb
+          · simp only [hs2, Bool.false_eq_true, if_false, decide_eq_false_iff_not] at hb
+            simp only [Powers.pbp, hs, hs2, Bool.false_eq_true, if_false] at hadm ⊢; omega
 
 /-! ### relational parser ⇒ fuel-indexed parser -/
 
